@@ -26,6 +26,18 @@ theorem run_WF (fuel : Nat) (s s' : PState) (h : WF s)
     (hr : (Impl.runLoop fuel 0 s).state? = some s') : WF s' :=
   Impl.runLoopG_inv Impl.perform WF Impl.wf_loop_pop Impl.wf_loop_next Impl.wf_loop_fatal fuel 0 s h s' hr
 
+/-- **Intermediate states are final states of smaller limits.** A run with step limit `a + b` is the run
+    with limit `a`, continued for `b` more steps from where it stopped (a run that ended early stays
+    ended).  So everything proved about final states for every limit - sizes, well-formedness, no panic,
+    only overflow aborts - holds after every single step of every run, and running one program with the
+    limits `0, 1, 2, …` (what the correspondence check does) shows every intermediate state of the real loop. -/
+theorem run_prefix (a b : Nat) (s : PState) :
+    Impl.runLoop (a + b) 0 s =
+      match Impl.runLoop a 0 s with
+      | .done s' k' => Impl.runLoop b k' s'
+      | r => r :=
+  Impl.runLoopG_add Impl.perform b a 0 s
+
 theorem run_sizes (s s' : PState) (h : WF s) (hr : (Impl.run s).state? = some s') : SizesOk s' :=
   (run_WF s.maxSteps s s' h hr).sizes
 
